@@ -183,7 +183,7 @@ Proof.
            rewrite u64_small by (unfold TWO64; change (2 ^ 63) with 9223372036854775808 in H64; lia). lia.
         -- rewrite u64_small by (unfold TWO64; change (2 ^ 63) with 9223372036854775808 in H64; lia). lia.
     + cbn [app]. assert (Hgo : opt_pass true fr vr cnt pres = Ok (cnt + (0 + count_optional fr), pres * 2 ^ (0 + count_optional fr) + N_of_bits (bm fr vr))).
-      { rewrite N.add_0_l. apply IH; auto. lia. }
+      { rewrite N.add_0_l. apply IH; auto. }
       destruct (f_ty f) eqn:Et; try exact Hgo. destruct x; try exact Hgo. exfalso. eapply Hm; eauto.
 Qed.
 
@@ -197,7 +197,8 @@ Qed.
 Lemma lendet_aligned n pos l : lendet n pos = XOk l -> ((pos + length l) mod 8 = 0)%nat.
 Proof.
   unfold lendet. pose proof (pad_len_spec pos) as Hp. unfold align.
-  destruct (n <? 128); [|destruct (n <? 16384)]; intros H; try discriminate; injection H as <-;
+  destruct (n <? 128); [|destruct (n <? 16384)]; intros H; try discriminate;
+    apply (f_equal (fun r => match r with XOk b => length b | _ => O end)) in H; cbv beta iota in H; rewrite <- H;
     rewrite app_length, repeat_length, bits_of_N_length; lia.
 Qed.
 
@@ -242,11 +243,11 @@ Proof.
 Qed.
 
 (* find_field (the Go loop over the first i fields) agrees with index_of when the name occurs before i *)
-Lemma find_field_index name : forall fs i k, find_field name fs i k <> (k + i)%nat ->
+Lemma find_field_index name : forall fs i k, (i <= length fs)%nat -> find_field name fs i k <> (k + i)%nat ->
   index_of name fs k = Some (find_field name fs i k).
 Proof.
-  induction fs as [|f fs IH]; intros i k H.
-  - destruct i; cbn [find_field] in *; lia.
+  induction fs as [|f fs IH]; intros i k Hl H.
+  - cbn [length] in Hl. assert (i = O) by lia. subst i. cbn [find_field] in H. lia.
   - destruct i; cbn [find_field] in *; [lia|]. cbn [index_of]. destruct (String.eqb (f_name f) name); [reflexivity|].
-    apply IH. lia.
+    apply IH; cbn [length] in Hl; lia.
 Qed.
